@@ -146,6 +146,12 @@ class SpecMixin:
             if isinstance(a[0], ast.Call) and getattr(a[0].func, "id", "") == "elems":
                 return B(self.elems(st, cur) == self.elems(old, prev))
             return B(cur.t == prev.t)
+        if f == "dict_unchanged":
+            d = v(a[0])
+            r_ = vr(d.t)
+            return B(z3.And(z3.Select(st.field("$dhas"), r_) == z3.Select(old.field("$dhas"), r_),
+                            z3.Select(st.field("$dmap"), r_) == z3.Select(old.field("$dmap"), r_),
+                            z3.Select(st.field("$dkeys"), r_) == z3.Select(old.field("$dkeys"), r_)))
         if f == "isfresh":         # allocated during this call
             x = v(a[0])
             if self._fresh_range is not None:      # assumed postcondition of a callee: allocated during that call
@@ -158,6 +164,15 @@ class SpecMixin:
         if f == "fs_text":
             p = vp(v(a[0]).t)
             return [Res(st, V(StrV(z3.Select(st.field("$fs_text"), p)), "str"))]
+        if f == "reached_loop":     # the loop with this key was reached on this path (its iterations are summarised)
+            key = a[0].value
+            es = [e for e in st.trace if e.name == "loop:" + key or e.name.startswith("loop:" + key + "#")]
+            return B(z3.Or(*[e.g() for e in es]) if es else z3.BoolVal(False))
+        if f == "effect_with_arg":  # some occurrence of the effect has `value` as its idx-th argument
+            name, idx = a[0].value, a[1].value
+            x = v(a[2])
+            es = [e for e in st.trace if e.name == name and idx < len(e.args)]
+            return B(z3.Or(*[z3.And(e.g(), e.args[idx].t == x.t) for e in es]) if es else z3.BoolVal(False))
         if f == "effect_before":     # no occurrence of effect a after an occurrence of effect b
             na, nb = a[0].value, a[1].value
             bad = []
